@@ -60,6 +60,7 @@ type Program struct {
 	// FnProblems: structural problems located in one function (scoped by the property drivers)
 	FnProblems []FnProblem
 	NInstr     int
+	guardSem   *GuardSem
 	Notes      []string
 }
 
